@@ -169,6 +169,47 @@ func c18(r *Run) {
 	if len(findIns(run, isRebalance)) == 0 {
 		r.ob("C18.R3:rebalance-gets-new-pool", "Run rebalances", run, nil, false, "no Rebalance call", false)
 	}
+	// the shrink branch closes the pollers of the OLD pool from the new size upwards
+	{
+		closes := findIns(run, func(i ssa.Instruction) bool {
+			cc := callCommon(i)
+			return cc != nil && cc.IsInvoke() && cc.Method.Name() == "Close" && namedTypeName(cc.Value.Type()) == "Poll"
+		})
+		if len(closes) == 0 {
+			r.ob("C18.R3:shrink-closes-surplus", "Run closes the surplus pollers when the pool shrinks", run, nil, false, "no poll.Close() in Run", false)
+		}
+		for i, c := range closes {
+			// the closed element comes from m.polls and the loop is bounded by len(m.polls)
+			_, fromOld := func() (ssa.Value, bool) {
+				u, ok := callCommon(c).Value.(*ssa.UnOp)
+				if !ok {
+					return nil, false
+				}
+				ia, ok := u.X.(*ssa.IndexAddr)
+				if !ok {
+					return nil, false
+				}
+				return loadOfField(ia.X, "manager", "polls")
+			}()
+			boundOld := false
+			for _, g := range guardChain(c.Block()) {
+				b, ok := g.Cond.(*ssa.BinOp)
+				if !ok || b.Op != token.LSS || !g.Branch {
+					continue
+				}
+				if lc, ok := b.Y.(*ssa.Call); ok {
+					if bi, isB := lc.Call.Value.(*ssa.Builtin); isB && bi.Name() == "len" {
+						if _, isOld := loadOfField(lc.Call.Args[0], "manager", "polls"); isOld {
+							if _, isPhi := b.X.(*ssa.Phi); isPhi {
+								boundOld = true
+							}
+						}
+					}
+				}
+			}
+			r.ob(fmt.Sprintf("C18.R3:shrink-closes-surplus#%d", i+1), "the surplus pollers that are closed are the elements of the current pool m.polls from the new size up to len(m.polls) (a loop bounded by the new, shorter slice closes nothing)", run, c, fromOld && boundOld, fmt.Sprintf("element of m.polls=%v, loop bound len(m.polls)=%v", fromOld, boundOld), true)
+		}
+	}
 	// size read atomically and compared with the current pool
 	r.mustPass("C18.R3:size-read", "Run reads the configured size atomically", run, nil, []Start{Entry(run)}, func(i ssa.Instruction) bool { return atomicOn(i, "Load", fNum) }, nil, nil, "Load(numLoops) on every path")
 
